@@ -1175,6 +1175,29 @@ Proof.
   destruct (er_verify_all reg); [exact DR | apply IH].
 Qed.
 
+(* the unpadding step returns or raises ValueError, for EVERY octet string (incl. the empty one) *)
+Lemma pkcs7_unpad_total data : (exists x, pkcs7_unpad data = Ok x) \/ pkcs7_unpad data = Err EValue.
+Proof.
+  unfold pkcs7_unpad. destruct (_ || _); [right; reflexivity|].
+  destruct (_ || _); [right; reflexivity|]. destruct (forallb _ _); [left; eauto | right; reflexivity].
+Qed.
+Lemma pkcs7_unpad_empty : pkcs7_unpad [] = Err EValue.
+Proof. reflexivity. Qed.
+Lemma pkcs7_unpad_safe data : safe (pkcs7_unpad data).
+Proof. destruct (pkcs7_unpad_total data) as [[x E] | E]; rewrite E; [exact I | reflexivity]. Qed.
+(* a well-formed padding is removed *)
+Lemma pkcs7_unpad_example :
+  pkcs7_unpad [1;2;3;4;5;6;7;8;9;10;11;12;13;3;3;3] = Ok [1;2;3;4;5;6;7;8;9;10;11;12;13] /\
+  pkcs7_unpad (repeat 16 16) = Ok [] /\ pkcs7_unpad (repeat 0 16) = Err EValue /\ pkcs7_unpad (repeat 17 16) = Err EValue /\
+  pkcs7_unpad [1;2;3;4;5;6;7;8;9;10;11;12;13;3;2;3] = Err EValue /\ pkcs7_unpad [1] = Err EValue.
+Proof. vm_compute. auto 10. Qed.
+
+Lemma enc_decrypt_safe enc ct tag cek iv aad : safe (enc_decrypt P enc ct tag cek iv aad).
+Proof.
+  unfold enc_decrypt. apply safe_bind; [apply H_enc|]. intros raw _.
+  destruct (String.eqb (ee_family enc) "CBCHS"); [apply pkcs7_unpad_safe | exact I].
+Qed.
+
 Lemma perform_decrypt_safe g reg o pd :
   needs_jwe_core g = true -> jwe_reg_wf2 reg = true ->
   jo_protected o = PDict pd -> hdr_ok (jo_unprotected o) = true -> Forall rec_ok (jo_recipients o) ->
@@ -1191,7 +1214,7 @@ Proof.
     apply safe_bind; [eapply recipients_loop_safe; eauto|]. intros ceks _.
     destruct ceks as [|cek [|c2 cr]]; try reflexivity.
     destruct (negb _); [reflexivity|].
-    apply safe_bind; [apply H_enc|]. intros msg _.
+    apply safe_bind; [apply enc_decrypt_safe|]. intros msg _.
     rewrite py_in_dict. cbn [bind].
     destruct (dmem pd (SK "zip")) eqn:Mz; [|exact I].
     destruct (getitem_dict_mem _ _ Mz) as [zv [Gz _]]. rewrite Gz. cbn [bind].
